@@ -334,7 +334,7 @@ static void run() {
                     }
                     if (vp::too_many_failures()) return;
                 }
-    if (a.shard == a.nshards - 1) huge_transfers();
+    if (a.shard == a.nshards - 1 && !vp::vg().on) huge_transfers();
     // random long transfers
     vp::Rng rng(a.seed * 2749 + a.shard);
     size_t nrand = (a.thorough() ? 20000 : 1500) / a.nshards;
